@@ -60,6 +60,7 @@ class Engine:
         self.str_to_int_hook = None
         self.call_site_vacuity = True
         self.site_stats = {}
+        self.before_call = {}  # (caller qualname, callee name) -> ghost assertion fn(c, frame, args) made before the call
         self.after_call = {}  # (caller qualname, callee name) -> ghost statement fn(c, frame, result)
         self.lazy_ext_kinds = set()  # external kinds whose methods only record their (lazily optional) arguments
         self.split_hooks = {}  # function qualname -> model of str.split inside that function
@@ -102,6 +103,15 @@ class Engine:
 
     # ------------------------------------------------------------------ calls
     def dispatch_call(self, c, fn, args, kwargs, node):
+        if self.before_call and c.frames and not c.dry:
+            nm = getattr(fn, "name", None) or getattr(fn, "__name__", None) or getattr(getattr(fn, "node", None), "name", None)
+            h = self.before_call.get((c.frames[-1].qual, nm))
+            if h is None and node is not None and hasattr(node, "func"):
+                syn = getattr(node.func, "id", None) or getattr(node.func, "attr", None)
+                h = self.before_call.get((c.frames[-1].qual, syn))
+            if h:
+                c.last_call_node = node
+                h(c, c.frames[-1], args)
         r = self._dispatch_call(c, fn, args, kwargs, node)
         if self.after_call and c.frames:
             nm = getattr(fn, "name", None) or getattr(fn, "__name__", None) or getattr(getattr(fn, "node", None), "name", None)
